@@ -15,6 +15,7 @@ import (
 	"math/rand"
 	"os"
 	"runtime"
+	"strings"
 	"sync"
 	"time"
 
@@ -55,7 +56,14 @@ func main() {
 		start := make(chan struct{})
 		src := outputs
 		if *cold == "calculate" {
-			src = inputs
+			// first the documents in old spellings (they take the regimes' migration tables), then the inputs
+			src = nil
+			for _, d := range conc.CrossAddons(inputs) {
+				if strings.Contains(d.Name, "~legacy-key:") {
+					src = append(src, d)
+				}
+			}
+			src = append(src, inputs...)
 		}
 		for k := 0; k < *g; k++ {
 			cwg.Add(1)
